@@ -175,7 +175,6 @@ func catalogue(w *world) []*entry {
 			return false
 		}
 		c.CheckSignatureFrom(w.root)
-		c.CheckSignatureFrom(c)
 		c.Verify(smx509.VerifyOptions{Roots: w.pool, CurrentTime: w.now, DNSName: "leaf.a.example"})
 		c.VerifyHostname("x.b.example")
 		c.VerifyHostname("10.1.2.3")
@@ -336,34 +335,108 @@ func catalogue(w *world) []*entry {
 	})
 
 	// ---------------------------------------------------------------- pkcs7
-	sm3OID := asn1.ObjectIdentifier{1, 2, 840, 113549, 1, 9, 4}
-	p7all := func(b []byte) bool {
+	mdOID := asn1.ObjectIdentifier{1, 2, 840, 113549, 1, 9, 4}
+	// accessors that do not fit the content type return at once (no cryptography); they are called on every parsed
+	// object so that each accessor sees every content type
+	p7cheap := func(p *pkcs7.PKCS7, signed, enveloped, encrypted, saed bool) {
+		p.GetOnlySigner()
+		var md []byte
+		p.UnmarshalSignedAttribute(mdOID, &md)
+		p.GetRecipients()
+		if !signed {
+			p.Verify()
+			p.VerifyAsDigest()
+		}
+		if !enveloped {
+			p.Decrypt(w.leaf, w.sm2B)
+			p.DecryptCFCA(w.leaf, w.sm2B)
+		}
+		if !encrypted {
+			p.DecryptUsingPSK(w.psk)
+		}
+		if !saed {
+			p.DecryptAndVerifyOnlyOne(w.sm2B, func() error { return p.Verify() })
+			p.DecryptAndVerify(w.leaf, w.sm2B, func() error { return p.Verify() })
+		}
+	}
+	add("pkcs7.Parse+Verify+VerifyWithChain", S("p7.signed.sm2", "p7.signed.sm2.noattr", "p7.signed.rsa", "p7.degenerate", "p7.signed.sm2.ber"), func(b []byte) bool {
 		p, err := pkcs7.Parse(b)
 		if err != nil {
 			return false
 		}
 		p.Verify()
-		p.VerifyAsDigest()
-		p.VerifyWithChain(w.pool)
-		p.VerifyAsDigestWithChain(w.pool)
 		p.VerifyWithChainAtTime(w.pool, &w.now)
-		p.GetOnlySigner()
-		var md []byte
-		p.UnmarshalSignedAttribute(sm3OID, &md)
-		p.GetRecipients()
-		p.Decrypt(w.leaf, w.sm2B)
-		p.DecryptCFCA(w.leaf, w.sm2B)
-		p.Decrypt(w.rsaCert, w.rsa1)
-		p.DecryptUsingPSK(w.psk)
-		p.DecryptAndVerifyOnlyOne(w.sm2B, func() error { return p.Verify() })
-		p.DecryptAndVerify(w.leaf, w.sm2B, func() error { return p.Verify() })
-		p.DecryptAndVerify(w.rsaCert, w.rsa1, func() error { return p.Verify() })
+		p7cheap(p, true, false, false, false)
 		return true
-	}
-	add("pkcs7.Parse+Verify*", S("p7.signed.sm2", "p7.signed.sm2.detached", "p7.signed.sm2.noattr", "p7.signed.sm2.digest", "p7.signed.rsa", "p7.signed.ecdsa", "p7.degenerate", "p7.signed.sm2.ber"), p7all)
-	add("pkcs7.Parse+Decrypt*", S("p7.enveloped.sm4cbc", "p7.enveloped.sm4gcm", "p7.enveloped.sm4ecb", "p7.enveloped.cfca", "p7.enveloped.cfcamsg", "p7.enveloped.rsa.aes128cbc", "p7.enveloped.rsa.aes256gcm"), p7all)
-	add("pkcs7.Parse+DecryptUsingPSK", S("p7.encrypted.sm4cbc", "p7.encrypted.sm4gcm", "p7.encrypted.aes128cbc"), p7all)
-	add("pkcs7.Parse+DecryptAndVerify*", S("p7.saed.sm2", "p7.saed.rsa"), p7all)
+	})
+	add("pkcs7.Parse+VerifyAsDigest+VerifyWithChain", S("p7.signed.sm2.digest", "p7.signed.sm2.detached"), func(b []byte) bool {
+		p, err := pkcs7.Parse(b)
+		if err != nil {
+			return false
+		}
+		p.VerifyAsDigest()
+		p.VerifyAsDigestWithChain(w.pool)
+		p.Content = w.msg // detached content supplied by the caller
+		p.VerifyWithChain(w.pool)
+		p7cheap(p, true, false, false, false)
+		return true
+	})
+	add("pkcs7.Parse+Decrypt/sm2", S("p7.enveloped.sm4cbc", "p7.enveloped.sm4gcm", "p7.enveloped.sm4ecb"), func(b []byte) bool {
+		p, err := pkcs7.Parse(b)
+		if err != nil {
+			return false
+		}
+		p.Decrypt(w.leaf, w.sm2B)
+		p7cheap(p, false, true, false, false)
+		return true
+	})
+	add("pkcs7.Parse+DecryptCFCA", S("p7.enveloped.cfca", "p7.enveloped.cfcamsg"), func(b []byte) bool {
+		p, err := pkcs7.Parse(b)
+		if err != nil {
+			return false
+		}
+		p.DecryptCFCA(w.leaf, w.sm2B)
+		p.Decrypt(w.leaf, w.sm2B)
+		p7cheap(p, false, true, false, false)
+		return true
+	})
+	add("pkcs7.Parse+Decrypt/rsa", S("p7.enveloped.rsa.aes128cbc", "p7.enveloped.rsa.aes256gcm"), func(b []byte) bool {
+		p, err := pkcs7.Parse(b)
+		if err != nil {
+			return false
+		}
+		p.Decrypt(w.rsaCert, w.rsa1)
+		p7cheap(p, false, true, false, false)
+		return true
+	})
+	add("pkcs7.Parse+DecryptUsingPSK", S("p7.encrypted.sm4cbc", "p7.encrypted.sm4gcm", "p7.encrypted.aes128cbc"), func(b []byte) bool {
+		p, err := pkcs7.Parse(b)
+		if err != nil {
+			return false
+		}
+		p.DecryptUsingPSK(w.psk)
+		p7cheap(p, false, false, true, false)
+		return true
+	})
+	add("pkcs7.Parse+DecryptAndVerify/sm2", S("p7.saed.sm2"), func(b []byte) bool {
+		p, err := pkcs7.Parse(b)
+		if err != nil {
+			return false
+		}
+		p.DecryptAndVerifyOnlyOne(w.sm2B, func() error { return p.Verify() })
+		p.DecryptAndVerify(w.leaf, w.sm2B, nil)
+		p7cheap(p, false, false, false, true)
+		return true
+	})
+	add("pkcs7.Parse+DecryptAndVerify/rsa", S("p7.saed.rsa"), func(b []byte) bool {
+		p, err := pkcs7.Parse(b)
+		if err != nil {
+			return false
+		}
+		p.DecryptAndVerify(w.rsaCert, w.rsa1, func() error { return p.Verify() })
+		p7cheap(p, false, false, false, true)
+		return true
+	})
 	add("pkcs7.VerifBER2DER(hook)", S("p7.signed.sm2.ber", "p7.signed.sm2.noattr", "p7.encrypted.sm4cbc"), func(b []byte) bool {
 		_, err := pkcs7.VerifBER2DER(b)
 		return err == nil
